@@ -25,7 +25,7 @@ if [ $NEED_LS = 1 ]; then
   cargo build --release --manifest-path $M/repo/Cargo.toml -p harper-ls --config 'profile.release.lto=false' --config 'profile.release.codegen-units=16' --config 'profile.release.strip=false' --target-dir $M/target-ls >$M/build-ls.log 2>&1 || { echo "harper-ls BUILD FAILED"; grep -E "^error" -A 6 $M/build-ls.log | head; exit 2; }
   export HV_LS_BIN=$M/target-ls/release/harper-ls
 fi
-NEED_CLI=0; for id in "$@"; do case $id in C13) NEED_CLI=1;; esac; done
+NEED_CLI=0; for id in "$@"; do case $id in C13|C07) NEED_CLI=1;; esac; done
 if [ $NEED_CLI = 1 ]; then
   cargo build --release --manifest-path $M/repo/Cargo.toml -p harper-cli --config 'profile.release.lto=false' --config 'profile.release.codegen-units=16' --config 'profile.release.strip=false' --target-dir $M/target-ls >$M/build-cli.log 2>&1 || { echo "harper-cli BUILD FAILED"; grep -E "^error" -A 6 $M/build-cli.log | head; exit 2; }
   export HV_CLI_BIN=$M/target-ls/release/harper-cli
